@@ -290,6 +290,28 @@ func (k Keeper) CancelOrder(ctx sdk.Context, orderId uint64) error {
 	return nil
 }
 
+// CancelInFlightOrder cancels, with a full refund, the model's current order if no shard of it has
+// been completed yet (pending, data-ready or in-progress); used when the model itself goes away.
+func (k Keeper) CancelInFlightOrder(ctx sdk.Context, dataId string) {
+	metadata, found := k.GetMetadata(ctx, dataId)
+	if !found {
+		return
+	}
+	order, found := k.order.GetOrder(ctx, metadata.OrderId)
+	if !found || order.DataId != dataId {
+		return
+	}
+	if order.Status != ordertypes.OrderPending && order.Status != ordertypes.OrderDataReady && order.Status != ordertypes.OrderInProgress {
+		return
+	}
+	for _, shardId := range order.Shards {
+		k.order.RemoveShard(ctx, shardId)
+	}
+	if err := k.CancelOrder(ctx, order.Id); err != nil {
+		k.Logger(ctx).Error("failed to cancel in-flight order of expired model", "dataId", dataId, "orderId", order.Id, "err", err.Error())
+	}
+}
+
 func (k Keeper) RollbackMeta(ctx sdk.Context, dataId string) {
 
 	metadata, found := k.GetMetadata(ctx, dataId)
